@@ -34,7 +34,6 @@ func init() {
 		Assumptions: []string{
 			"no reader / no writer at all (a nil io.Reader / io.Writer) is generated for the byte-stream and text codecs only: the call must be refused (an error, never a panic), and a closable source payload is closed all the same; JSON/XML/YAML hand the stream to the standard decoder / encoder and are not driven without one (the statement's nil clause is about destinations)",
 			"producers given a source they do not document: no panic, both directions of the closing clause, an error for a nil source, and no success that did not happen (nil returned with nothing written, or with the reflect package's '<T Value>' placeholder written); what an undocumented kind is otherwise written as is not judged",
-			"TRIAGE-PENDING (gen.go, triagePending): typed-nil pointer sources of the byte-stream and text producers (they panic in reflect) and a nil writer together with a closable payload (the payload stays open) are judged on replay but kept out of the generator until the lead has triaged them",
 			"DiscardConsumer / DiscardProducer: an error, a closed stream, bytes written or an altered destination are violations; READING the stream or the payload is not (the statement has no clause about it: draining is what connection reuse wants)",
 			"overlapping calls on ONE codec instance (what Runtime.Consumers / Producers and the API's maps hold) are each judged as a call that was alone: the statement quantifies over all inputs without an exception for calls that overlap; faults are not scripted there, and the build is not a -race build (interference is seen in the bytes, the values, the close counters or as a panic)",
 			"the content above 32 MiB is not run (class content/above-32MiB/not-run-for-lack-of-memory) on a machine with less than 1 GiB (quick) / 4 GiB (thorough) of available memory: a worker killed for lack of memory would be reported as a crash of the code under test",
